@@ -340,6 +340,20 @@ class Result:
 
 
 _RUN_COUNTER = [0]
+
+try:
+    import ctypes
+    _LIBC = ctypes.CDLL("libc.so.6", use_errno=True)
+except OSError:     # pragma: no cover
+    _LIBC = None
+
+
+def _child_setup():
+    """runs in the forked child before exec: if the driver worker dies (pool.terminate, crash, Ctrl-C) the
+    simulated process is killed with it -- a hung s4 must never outlive its run and burn a core"""
+    if _LIBC is not None:
+        _LIBC.prctl(1, signal.SIGKILL)      # PR_SET_PDEATHSIG
+
 FINGERPRINTS = None     # when a list: every execute() appends (stdout sha, rc, normalised trace sha, tmp_left count)
 _TMPNAME = re.compile(r"s4-[A-Za-z0-9_]{6}")
 
@@ -418,7 +432,8 @@ def _execute_once(scn, plan, keep, wall_cap, binary, want_trace):
                 si = open(os.path.join(meta, "stdin"), "rb")
             else:
                 si = subprocess.DEVNULL
-            p = subprocess.Popen([binary or S4BIN] + list(scn.argv), cwd=wd, env=env, stdin=si, stdout=so, stderr=se)
+            p = subprocess.Popen([binary or S4BIN] + list(scn.argv), cwd=wd, env=env, stdin=si, stdout=so, stderr=se,
+                                 preexec_fn=_child_setup)
             if si is not subprocess.DEVNULL:
                 si.close()
 
